@@ -22,11 +22,16 @@ pub struct Finding {
     pub classes: Vec<String>,
     /// name of the predicate (below) that identifies exactly this defect
     pub predicate: String,
+    /// one-line form: "fixed: property=<id> <commit> <what failed>" / "known: property=<id> <what fails>"
+    #[serde(default)]
+    pub record: String,
 }
 
 #[derive(Clone, Debug, Default, Serialize, Deserialize)]
 pub struct KnownFile {
     pub findings: Vec<Finding>,
+    #[serde(default)]
+    pub format: String,
 }
 
 pub fn load() -> KnownFile {
